@@ -6,6 +6,7 @@ CONSTANTS
   Configs = {1, 12}
   MaxList = 3
   GenMode = TRUE
-  SetAll = FALSE
+  Wide = FALSE
+  DEV_SortedIdLists = FALSE
   DEV_SpellingInEq = FALSE
 INVARIANT Emit
